@@ -638,6 +638,17 @@ def build(tier, seed):
                                      ("QUAD8", "thermal", True, True)):
         obs.append(Ob(f"C04.solve.{et}.{physics}{'.dup' if dup else ''}{'.orphan' if orphan else ''}", ob_solve, (et, physics, dup, orphan), "X", (f"{SOL}::Solve_simu", f"{SP}::_Simu.Solve"),
                       bound="star patch, one BC set", clause="constrained dofs == (sum of) prescribed values; free rows of K u = F; finite with orphan nodes", timeout=300))
+    if tier == "thorough":
+        from .common import LAGRANGE
+        done = {("TRI3", "thermal"), ("QUAD4", "elastic"), ("TRI3", "elastic"), ("TETRA4", "elastic"), ("QUAD8", "thermal")}
+        for et in LAGRANGE:
+            if et.startswith(("POINT", "SEG")):
+                continue
+            for physics in ("thermal", "elastic"):
+                if (et, physics) in done:
+                    continue
+                obs.append(Ob(f"C04.solve.{et}.{physics}.dup.orphan", ob_solve, (et, physics, True, True), "X", (f"{SOL}::Solve_simu", f"{SP}::_Simu.Solve"),
+                              bound="star patch, one BC set", clause="constrained dofs == (sum of) prescribed values; free rows of K u = F; finite with orphan nodes", timeout=900))
     for backend in ("cg", "bicg", "gmres", "lgmres", "lsq_linear"):
         if backend == "lsq_linear":
             continue
